@@ -34,13 +34,56 @@ def plan(tier, seed):
 
 
 def with_base(prog, base):
+    """The same program with its base site ('.link X' wherever it stands, or a leading '. = X') set to `base`."""
     from vlib import apm
     p = apm.from_json(apm.to_json(prog))
+    done = False
     for f in p.files:
-        f.stmts = [s for s in f.stmts if s.k != "link" and not (s.k == "dot" and s is f.stmts[0] and f is p.files[0])]
-    # a leading '. = X' base site was removed above only if first; make the base explicit
-    p.files[0].stmts.insert(0, apm.link(apm.num(base)))
+        for i, s in enumerate(f.stmts):
+            if s.k == "link" or (s.k == "dot" and f is p.files[0] and i == 0):
+                if not done:
+                    s.expr = apm.num(base)
+                    done = True
+    if not done:
+        p.files[0].stmts.insert(0, apm.link(apm.num(base)))
     return p
+
+
+def gen_pic_program(rnd):
+    """Position-independent code: refers to its own labels only through branches, relative operands and label differences."""
+    from vlib import apm
+    n = rnd.randrange(4, 14)
+    labels = [f"pc{i}" for i in range(rnd.randrange(2, 5))]
+    pos = sorted(rnd.sample(range(n + 1), len(labels)))
+    stmts = [apm.link(apm.num(0o1000))]
+    li = 0
+
+    def diff():
+        a, b = rnd.choice(labels), rnd.choice(labels)
+        return ("grp", ("bin", "-", ("sym", a), ("sym", b)))
+    for i in range(n + 1):
+        while li < len(labels) and pos[li] == i:
+            stmts.append(apm.label(labels[li]))
+            li += 1
+        if i == n:
+            break
+        r = rnd.random()
+        near = labels[max(0, li - 1):li + 1]
+        if r < 0.2:
+            stmts.append(apm.insn(rnd.choice(["mov", "add", "cmp"]), ("imm", ("bin", "/", diff(), apm.num(2))), ("reg", rnd.randrange(6))))
+        elif r < 0.4:
+            stmts.append(apm.insn(rnd.choice(["clr", "tst", "inc", "jmp"]), (rnd.choice(["rel", "reld"]), ("sym", rnd.choice(labels)))))
+        elif r < 0.55:
+            stmts.append(apm.insn(rnd.choice(["mov", "bis"]), ("rel", ("sym", rnd.choice(labels))), ("rel", ("bin", "+", ("sym", rnd.choice(labels)), apm.num(2)))))
+        elif r < 0.7 and near:
+            stmts.append(apm.insn(rnd.choice(["br", "bne", "beq", "bcc"]), ("br", ("sym", rnd.choice(near)))))
+        elif r < 0.78 and near:
+            stmts.append(apm.insn("sob", ("reg", rnd.randrange(6)), ("br", ("sym", near[0]))))
+        elif r < 0.9:
+            stmts.append(apm.data(".word", diff(), apm.num(rnd.randrange(0x10000)), ("bin", "-", ("dot",), ("sym", rnd.choice(labels)))))
+        else:
+            stmts.append(apm.blk(".blkb", apm.num(2 * rnd.randrange(0, 6))))
+    return apm.Program([apm.SrcFile("f0.mac", stmts)])
 
 
 def coefficients(prog, b1, b2):
@@ -118,6 +161,14 @@ def run_shard(spec):
                 res["distinct"].append(f"{spec['part']}|{i}")
             if i < 1:
                 res["samples"].append({"bases": [oct(b) for b in bases], "text": apm.r_file(prog.files[0]).splitlines()[:14]})
+        for i in range(spec["count"] // 3):
+            prog = gen_pic_program(rnd)
+            case = {"kind": "pic", "prog": apm.to_json(prog), "seed": rnd.randrange(1 << 30)}
+            vs, nontrivial = run_case(case, cnt, root, res["sets"]["coefficients_seen"])
+            res["violations"].extend(vs)
+            res["evaluations"] += 1
+            if nontrivial:
+                res["distinct"].append(f"pic|{spec['part']}|{i}")
         repo = os.environ.get("VERIF_REPO", "/repo")
         dirs = sorted(glob.glob(os.path.join(repo, "tests", "practice", "*", "")))
         for j, d in enumerate(dirs):
@@ -165,6 +216,34 @@ def run_case(case, cnt=None, root=None, coef_set=None):
         out.append({"what": what, "case": case})
 
     try:
+        if case["kind"] == "pic":
+            # position-independent code must be byte-identical at every base, also when the image runs through 0o177777
+            prog = apm.from_json(case["prog"])
+            srnd = random.Random(case["seed"])
+            o0, _t = meta.assemble_prog(with_base(prog, 0o1000), root)
+            if o0.cls != "ok":
+                # the generator does not guarantee reach (a forward sob, a far branch): not a program, not judged
+                cnt["pic_generated_invalid"] = cnt.get("pic_generated_invalid", 0) + 1
+                return (out, False) if not own else out
+            size = len(o0.code)
+            inside = 2 * srnd.randrange(1, max(2, size // 2)) if size > 4 else 2
+            bases = [0o40000, 0o157776, 0o177776 - 2 * srnd.randrange(0, 8), (0o200000 - inside) & ~1, 0]
+            cnt["pic_triples_compared"] = cnt.get("pic_triples_compared", 0) + 1
+            for b in bases:
+                o, _t = meta.assemble_prog(with_base(prog, b), root)
+                if o.cls == "stall":
+                    continue
+                if o.cls != "ok":
+                    viol(f"position-independent program assembles at base 0o1000 but not at base {b:#o} (image {size} bytes, crosses the end of the address space: "
+                         f"{b + size > 0o200000}): {meta.describe(o)}; source: {' | '.join(list(_t.values())[0].splitlines()[:20])}")
+                    break
+                if o.code != o0.code:
+                    d = meta.first_diff(o.code, o0.code)
+                    viol(f"position-independent program differs between base 0o1000 and base {b:#o} at offset {d}: {o0.code[d & ~1:(d & ~1) + 4].hex()} vs {o.code[d & ~1:(d & ~1) + 4].hex()}; "
+                         f"source: {' | '.join(list(_t.values())[0].splitlines()[:20])}")
+                    break
+                cnt["words_compared"] += size // 2
+            return (out, True) if not own else out
         bases = case["bases"]
         if case["kind"] == "gen":
             prog = apm.from_json(case["prog"])
